@@ -23,7 +23,7 @@ private def mk (routes : List (Bytes × List (Bytes × Nat))) : Tree :=
 private def ridOf (sat : Nat → Bytes → Bool) (t : Tree) (path : Bytes) : Option Nat :=
   (getRoute sat t path Ctx.fresh).1.map (·.rid)
 
-/-! ### `getRoute`: static child, then parameter child, then wildcard, else miss -/
+/-! ### the descent: static child, then parameter child, then wildcard, else miss -/
 
 private def rStatic : Bytes × List (Bytes × Nat) := (['/', 'x', '/', ':', 'a'], [])
 private def rParam : Bytes × List (Bytes × Nat) := (['/', ':', 'p', '/', ':', 'a'], [])
@@ -46,7 +46,29 @@ def modelDescentChain : List String :=
 
 theorem getRoute_descent_order : descentChain = modelDescentChain := by decide
 
-/-! ### `getRoute`: root and empty path, then `staticPaths`, before the loop -/
+/-! ### the descent backtracks: an arm that finds no route hands over to the next one -/
+
+/-- `/u/a/p` with `/u/:i/p` next to `/u/a/:x/y`: the static edge `a` leads nowhere, the parameter sibling
+answers (static arm falls through). `/v/abc` with `/v/:i` (constraint 0 accepts only `1`) next to `/v/*`: the
+parameter leaf rejects, the wildcard answers (parameter arm falls through). `/a/z` with `/a/*` (its constraint
+rejects `z`) next to `/:p/z`: the wildcard below `a` rejects, the search resumes at the root's parameter child
+(wildcard arm falls through). -/
+def modelFallsThrough : List String :=
+  (if ridOf yes (mk [(['/', 'u', '/', ':', 'i', '/', 'p'], []), (['/', 'u', '/', 'a', '/', ':', 'x', '/', 'y'], [])])
+      ['/', 'u', '/', 'a', '/', 'p'] = some 0 then ["findChild"] else []) ++
+  (if ridOf one (mk [(['/', 'v', '/', ':', 'i'], [(['i'], 0)]), (['/', 'v', '/', '*'], [])])
+      ['/', 'v', '/', 'a', 'b', 'c'] = some 1 then ["param"] else []) ++
+  (if ridOf one (mk [(['/', 'a', '/', '*'], [(wildParam, 0)]), (['/', ':', 'p', '/', 'z'], [])])
+      ['/', 'a', '/', 'z'] = some 1 then ["wildcard"] else [])
+
+theorem getRoute_backtracks : descentFallsThrough = modelFallsThrough := by decide
+
+/-- what each arm does: the static and the parameter arm ask `accepts` at the last segment and descend
+otherwise, the parameter and the wildcard arm capture first and drop the capture when they hand over -/
+theorem descent_arm_calls : descentArmCalls =
+    ["findChild:accepts,descend", "param:captureParam,accepts,descend,dropCaptures", "wildcard:captureParam,accepts,dropCaptures"] := by decide
+
+/-! ### `getRoute`: root and empty path, then `staticPaths`, then the descent -/
 
 private def rootLeaf (rid : Nat) : Leaf := ⟨rid, [], ['/'], []⟩
 /-- a tree (not reachable by registration) whose root node and whose `staticPaths` both answer `/` and `` -/
@@ -55,33 +77,34 @@ private def preludeTree : Tree := ⟨[([], ⟨some (rootLeaf 1), none, none⟩)]
 def modelPrelude : List String :=
   (if ridOf yes preludeTree ['/'] = some 1 then ["root"] else []) ++
   (if ridOf yes preludeTree [] = some 1 then ["empty"] else []) ++
-  (if ridOf yes (mk [(['/', ':', 'p'], []), (['/', 'x'], [])]) ['/', 'x'] = some 1 then ["staticPaths"] else [])
+  (if ridOf yes (mk [(['/', ':', 'p'], []), (['/', 'x'], [])]) ['/', 'x'] = some 1 then ["staticPaths"] else []) ++
+  (if ridOf yes (mk [(['/', ':', 'p'], [])]) ['/', 'x'] = some 0 then ["descend"] else [])
 
 theorem getRoute_prelude_order : getRoutePrelude = modelPrelude := by decide
 
-/-! ### `getRoute`: the captured values are named after the matched route before its constraints are
-validated, and validation precedes the return — at the last segment and at a wildcard -/
+/-! ### `accepts`: a node without a route is not an answer; the captured values are named after the
+route before its constraints are validated -/
 
 private def namesLeaf : List (Bytes × List (Bytes × Nat)) :=
   [(['/', 'a', '/', ':', 'x', '/', 'b'], []), (['/', 'a', '/', ':', 'y', '/', 'c'], [(['y'], 0)])]
 private def namesWild : List (Bytes × List (Bytes × Nat)) :=
   [(['/', 'a', '/', ':', 'x', '/', 'b'], []), (['/', 'a', '/', ':', 'y', '/', '*'], [(['y'], 0)])]
 
-/-- the second route's constraint is on `y`, a name the shared node does not hold: it can only pass if the
-naming comes first, and it must fail for the value `2` if validation comes before the return -/
-private def blockOf (routes : List (Bytes × List (Bytes × Nat))) (okPath badPath : Bytes) : List String :=
-  (if ridOf one (mk routes) okPath = some 1 then ["bindParamNames", "validateConstraints"] else ["validateConstraints", "bindParamNames"]) ++
-  (if ridOf one (mk routes) badPath = none then ["return"] else [])
+/-- `/a` with only `/a/:x` registered: the node `a` exists and carries no route. The second route's
+constraint is on `y`, a name the shared node does not hold: it can only pass if the naming comes first, and
+it must reject the value `2` — at a last-segment node and at a wildcard alike. -/
+def modelAcceptsOrder : List String :=
+  (if ridOf yes (mk [(['/', 'a', '/', ':', 'x'], [])]) ['/', 'a'] = none then ["handlers"] else []) ++
+  (if ridOf one (mk namesLeaf) ['/', 'a', '/', '1', '/', 'c'] = some 1 ∧ ridOf one (mk namesWild) ['/', 'a', '/', '1', '/', 'z'] = some 1
+   then ["bindParamNames"] else []) ++
+  (if ridOf one (mk namesLeaf) ['/', 'a', '/', '2', '/', 'c'] = none ∧ ridOf one (mk namesWild) ['/', 'a', '/', '2', '/', 'z'] = none
+   then ["validateConstraints"] else [])
 
-def modelLeafBlock : List String := blockOf namesLeaf ['/', 'a', '/', '1', '/', 'c'] ['/', 'a', '/', '2', '/', 'c']
-def modelWildcardArm : List String := blockOf namesWild ['/', 'a', '/', '1', '/', 'z'] ['/', 'a', '/', '2', '/', 'z']
-
-theorem getRoute_leaf_bind_validate_return : leafBlock = modelLeafBlock := by decide
-theorem getRoute_wildcard_bind_validate_return : wildcardArm = modelWildcardArm := by decide
+theorem accepts_order : acceptsOrder = modelAcceptsOrder := by decide
 
 /-! ### inline slots, `bindParamNames` -/
 
-theorem slot_bounds : getRouteSlotBounds ≠ [] ∧ getRouteSlotBounds.all (· = inlineSlots) = true ∧
+theorem slot_bounds : slotWriteBounds ≠ [] ∧ slotWriteBounds.all (· = inlineSlots) = true ∧
     bindSlotBounds = [inlineSlots] := by decide
 
 /-- `bindParamNames` renames the inline keys and fills `Params` from the positional overflow — the two
